@@ -102,6 +102,7 @@ class Monitor:
         self.before = None
         self.cells = set()
         self.held = {}       # cid -> (id of the held Config, flattened config the model predicts for it)
+        self.witness = {}    # pair id -> outcome of side 0
 
     # -- the reference model ---------------------------------------------------------------
     def P(self, name):
@@ -296,6 +297,18 @@ class Monitor:
             return
         if fault is not None or outcome[0].startswith('fault'):
             return
+        w = op.get('c20w')
+        if w:
+            # the same call under two values of one key coming from one layer: the documented meaning of
+            # the key makes the outputs differ, whichever layer the value comes from
+            if w['side'] == 0:
+                self.witness[w['pair']] = outcome
+            elif w['pair'] in self.witness:
+                run.count('c20:witness-pairs-compared')
+                if self.witness[w['pair']] == outcome:
+                    run.violate('C20', 'precedence', 'value-from-layer-has-no-effect', i, {
+                        'key': w['key'], 'layer': w['layer'], 'values': w['values'], 'abbr': op['abbr'], 'cfg': op['cfg'],
+                        'holder': h.spec.get('holder'), 'output under both values': outcome})
         glob = host.global_of(h.spec)
         user = h.user if h.user is not None else {}
         if h.spec.get('holder') == 'Config':
